@@ -312,7 +312,7 @@ type rlObjProj struct {
 	HasSub bool
 }
 
-func rlProjectRoot(root *schema_j5pb.RootSchema) (*rlObjProj, error) {
+func rlProjectRoot(root *schema_j5pb.RootSchema, subject string) (*rlObjProj, error) {
 	obj := root.GetObject()
 	if obj == nil {
 		return nil, fmt.Errorf("root schema is %T, not an object", root.GetType())
@@ -321,7 +321,7 @@ func rlProjectRoot(root *schema_j5pb.RootSchema) (*rlObjProj, error) {
 	for _, p := range obj.Properties {
 		out.Names = append(out.Names, p.Name)
 		out.Paths = append(out.Paths, p.ProtoField)
-		if p.Name == "subject" {
+		if p.Name == subject || (!out.HasSub && strings.EqualFold(p.Name, subject)) {
 			d, err := rlProjectProp(p)
 			if err != nil {
 				return nil, err
@@ -581,10 +581,10 @@ func rlReflectDriver(raw json.RawMessage) *Out {
 		return out
 	}
 	out.Nontrivial = len(set) > 0 || d.Pres != "implicit" || d.Card != "single"
-	wantNames := []string{"subject"}
+	wantNames := []string{rlSubject(c.Opts)}
 	wantPaths := [][]int32{{1}}
 	if c.Opts.Anchor {
-		wantNames = []string{"anchor", "subject"}
+		wantNames = []string{"anchor", rlSubject(c.Opts)}
 		wantPaths = [][]int32{{1}, {2}}
 	}
 	projections := map[string]*rlObjProj{}
@@ -600,7 +600,7 @@ func rlReflectDriver(raw json.RawMessage) *Out {
 			evProj[src] = map[string]any{"error": class}
 			return
 		}
-		proj, err := rlProjectRoot(root)
+		proj, err := rlProjectRoot(root, rlSubject(c.Opts))
 		if err != nil {
 			out.V(fmt.Sprintf("C04|item@%s|reflect-shape|%s|%s|%s|%s", d.Card, setS, fam, d.Kind, src), "%v\n%s", err, text)
 			evProj[src] = map[string]any{"error": "shape"}
